@@ -308,9 +308,13 @@ def simulate(ctx, i, rng, case):
     m = spec['motor']
     i0, imax = q(m['i0']), q(m['imax'])
     crossed = set()
-    for j in range(0, len(b.rule_log) - len(b.rule_log) % nr, nr):
-        rnd = b.rule_log[j:j + nr]
-        k = rnd[0][0] - 1
+    by_instant = {}
+    for ent in b.rule_log:
+        by_instant.setdefault(ent[0] - 1, []).append(ent)
+    for k in sorted(by_instant):
+        if len(by_instant[k]) < nr:
+            continue
+        rnd = by_instant[k][-nr:]          # the last complete round at this instant is the deciding one
         if k >= len(M['load torque']):
             break
         if M['load torque'][k] < 0:
